@@ -174,6 +174,11 @@ func check(c *pbt.Case, r *pbt.R) {
 		if ok && (!sameDetails(gs) || !sameDetails(rawSt)) {
 			r.Failf("a gRPC status error loses its details on the way", "want %d details; client got %v; raw %v\n%s", len(want.Proto().GetDetails()), gs.Proto().GetDetails(), rawSt.Proto().GetDetails(), c.Spec)
 		}
+		// ... the very error the invoker returned: same Go type and text
+		// as a client without interceptor sees.
+		if fmt.Sprintf("%T", got) != fmt.Sprintf("%T", raw) || got.Error() != raw.Error() {
+			r.Failf("a gRPC status error does not pass through unchanged", "client with interceptor got %T %q, client without %T %q\n%s", got, got, raw, raw, c.Spec)
+		}
 		if !ok || gs.Code() != want.Code() || gs.Message() != want.Message() || rawSt.Code() != want.Code() || rawSt.Message() != want.Message() {
 			r.Failf("a gRPC status error does not pass through unchanged", "want %v %q; client got %v; raw %v\n%s", want.Code(), want.Message(), got, raw, c.Spec)
 		}
